@@ -536,7 +536,7 @@ def scbrt(x):
     return wrap(y)
 
 
-PI = z3.Real("pi")
+PI = z3.Real("pi_const")
 
 
 def pi_axiom():
@@ -942,10 +942,17 @@ def as_seq(x):
     raise OutOfReach("as_seq: %s" % type(x).__name__)
 
 
+class _Dummy(int):
+    """value of an unchecked (spec-side) read outside a concrete list: 0 that can also be subscripted"""
+
+    def __getitem__(self, k):
+        return self
+
+
 def _pick(lst, k):
     if isinstance(k, (int, np.integer)):
         if not (0 <= k < len(lst)):
-            return 0   # unchecked (spec-side) read outside a concrete list: guarded by the caller
+            return _Dummy(0)   # guarded by the caller
         return lst[k]
     if len(lst) == 0:
         raise OutOfReach("symbolic index into empty concrete list")
@@ -1293,6 +1300,25 @@ def auto_patterns(body, vars_):
     suitable for z3.ForAll(patterns=...) -- one multi-pattern covering all bound variables -- or None."""
     vids = {v.get_id(): v for v in vars_}
     found = {}   # var id -> list of candidate terms
+    # functions that are also applied to a *shifted* bound variable (a(k+1)): a pattern on a(k) would make every
+    # instance produce a new matching term (matching loop), so they are not used as patterns
+    shifted = set()
+    stack = [body]
+    seen = set()
+    while stack:
+        t = stack.pop()
+        if t.get_id() in seen:
+            continue
+        seen.add(t.get_id())
+        if z3.is_quantifier(t):
+            continue
+        if z3.is_app(t):
+            if t.decl().kind() == z3.Z3_OP_UNINTERPRETED and t.num_args() > 0:
+                for a in t.children():
+                    if a.get_id() not in vids and not _closed(a, vids) and \
+                            not (z3.is_app(a) and a.decl().kind() == z3.Z3_OP_UNINTERPRETED):
+                        shifted.add(t.decl().name())
+            stack.extend(t.children())
     stack = [body]
     seen = set()
     while stack:
@@ -1306,7 +1332,7 @@ def auto_patterns(body, vars_):
             if t.decl().kind() == z3.Z3_OP_UNINTERPRETED and t.num_args() > 0:
                 direct = [a for a in t.children() if a.get_id() in vids]
                 others_ok = all(a.get_id() in vids or (_closed(a, vids) and not _has_ite(a)) for a in t.children())
-                if direct and others_ok:
+                if direct and others_ok and t.decl().name() not in shifted:
                     for a in direct:
                         found.setdefault(a.get_id(), []).append(t)
             stack.extend(t.children())
